@@ -839,6 +839,24 @@ theorem finished_of_HInv {H : List Cycle} {s : CState} (h : HInv c ac H s) (hfin
   rw [houts, hin.hist]
   exact HistorySpec_snoc ac done pre cy ys hin.spec hys
 
+/-- the view of the last cycle in a finished state without a reported error -/
+theorem finished_view {H : List Cycle} {s : CState} (h : HInv c ac H s) (hfin : finished s = true)
+    (hnr : ¬ Reported s) :
+    ∃ done cy pre n0, H = done ++ [cy] ∧ (∀ w ∈ s.writers.take n0, w.pc = .done)
+      ∧ CInv c ac cy (proj (viewOf pre [] n0) s) ∧ finished (proj (viewOf pre [] n0) s) = true := by
+  simp only [finished, Bool.and_eq_true, List.isEmpty_iff, beq_iff_eq] at hfin
+  obtain ⟨hprog, hpc⟩ := hfin
+  rcases h with hrep | ⟨done, cy, todo, pre, n0, hin⟩
+  · exact absurd hrep hnr
+  have hp := hin.prog
+  rw [hprog] at hp
+  have hp1 : (proj (viewOf pre todo n0) s).prog = [] := (List.append_eq_nil_iff.mp hp.symm).1
+  have htodo : todo = [] := (histOps_nil_iff todo).mp (List.append_eq_nil_iff.mp hp.symm).2
+  subst htodo
+  refine ⟨done, cy, pre, n0, hin.hist, hin.old, hin.inv, ?_⟩
+  simp only [finished, Bool.and_eq_true, List.isEmpty_iff, beq_iff_eq]
+  exact ⟨hp1, hpc⟩
+
 end history
 
 end Biogo.MorassConc
